@@ -44,6 +44,46 @@ def garbage(rnd, acc_texts, n):
             out.append(list((t + u).encode()))
     return out
 
+def fuzz_corpus(run, exe, rnd, texts, seconds):
+    """Thorough tier: Go's coverage-guided fuzzer as an input generator (harness/fuzz_test.go). Returns the inputs
+    of the corpus it has accumulated (and of any input it stopped on); they are replayed and judged like all others."""
+    import subprocess, os, shutil, hashlib
+    hdir = os.path.join(vlib.VERIF, "harness")
+    seeds = run.path("fuzz.seeds")
+    with open(seeds, "w") as f:
+        f.write("\n".join(t for t in rnd.sample(texts, min(len(texts), 600)) if "\n" not in t))
+    modflag = []
+    if os.path.realpath(vlib.REPO) != "/repo":
+        modflag = ["-modfile=" + os.path.join(vlib.OUT, "bin", "go.%s.mod" % hashlib.md5(vlib.REPO.encode()).hexdigest()[:8])]
+    env = dict(vlib.GOENV); env["VERIF_FUZZ_SEEDS"] = seeds
+    crash = os.path.join(hdir, "testdata")
+    shutil.rmtree(crash, ignore_errors=True)
+    cmd = ["go", "test", "-tags", "verif"] + modflag + ["-run", "^$", "-fuzz", "FuzzTotal", "-fuzztime", "%ds" % seconds, "-parallel", "12", "."]
+    try:
+        p = subprocess.run(cmd, cwd=hdir, env=env, stdout=subprocess.PIPE, stderr=subprocess.STDOUT, text=True, timeout=seconds + 900)
+    except subprocess.TimeoutExpired:
+        raise vlib.Infra("go test -fuzz did not finish")
+    tail = [l for l in p.stdout.splitlines() if l.startswith("fuzz: elapsed")][-1:] or [""]
+    stopped = p.returncode != 0
+    if stopped and "Failing input written to" not in p.stdout and "--- FAIL" not in p.stdout:
+        shutil.rmtree(crash, ignore_errors=True)
+        raise vlib.Infra("go test -fuzz failed without a failing input:\n" + p.stdout[-3000:])
+    cache = subprocess.run(["go", "env", "GOCACHE"], env=env, stdout=subprocess.PIPE, text=True).stdout.strip()
+    dirs = [os.path.join(cache, "fuzz", "verif", "harness", "FuzzTotal"), os.path.join(crash, "fuzz", "FuzzTotal")]
+    jp, ep = run.path("corpus.jobs"), run.path("corpus.ev")
+    vlib.write_ndjson(jp, [{"k": "corpus", "dirs": dirs}])
+    vlib.run_harness(run, exe, jp, ep)
+    evs = vlib.read_ndjson(ep)
+    inputs = [i for e in evs for i in e["inputs"]]
+    stopped_on = [i for e in evs if e["dir"].startswith(crash) for i in e["inputs"]]
+    shutil.rmtree(crash, ignore_errors=True)
+    run.extra["fuzz"] = {"seconds": seconds, "last_status": tail[0], "corpus_inputs_replayed": len(inputs), "fuzzer_stopped_on_an_input": stopped,
+                         "stopped_on": [bytes(b % 256 for b in i).decode("latin-1") for i in stopped_on][:3]}
+    if stopped and not stopped_on:
+        raise vlib.Infra("the fuzzer stopped on an input that could not be read back:\n" + p.stdout[-2000:])
+    run.fuzz_stopped = stopped
+    return inputs
+
 def check(run):
     quick = run.tier == "quick"
     exe = vlib.build_harness(run)
@@ -59,7 +99,9 @@ def check(run):
     if quick:
         longs = [l for l in longs if l["n"] in (1000, 100000)]
         longs = rnd.sample(longs, 120)
-    jobs = [{"k": "total", "tag": "sigma", "inputs": strs[i:i + 400]} for i in range(0, len(strs), 400)]
+    fuzzed = [] if quick else fuzz_corpus(run, exe, rnd, texts, 150)
+    jobs = [{"k": "total", "tag": "fuzz", "inputs": fuzzed[i:i + 400]} for i in range(0, len(fuzzed), 400)]
+    jobs += [{"k": "total", "tag": "sigma", "inputs": strs[i:i + 400]} for i in range(0, len(strs), 400)]
     jobs += [{"k": "total", "tag": "garbage", "inputs": garb[i:i + 400]} for i in range(0, len(garb), 400)]
     jobs += [{"k": "total", "tag": "long", "longs": longs[i:i + 6]} for i in range(0, len(longs), 6)]
     # CLI: every string of length <= 2 (no NUL: it cannot be passed in an argument vector) in every argument position
@@ -105,9 +147,11 @@ def check(run):
     run.extra.update({"alphabet": SIGMA, "max_length_exhaustive": L, "strings": len(strs), "garbage_inputs": len(garb), "long_inputs": len(longs),
                       "entry_point_calls": calls, "accepted_values_observed": accepted, "cli_executions": len(cliruns),
                       "slowest_call_ms_n_name": list(slowest)})
+    if getattr(run, "fuzz_stopped", False) and not run.violations:
+        raise vlib.Infra("the fuzzer stopped on an input, but its replay through the recorded harness was judged conforming (unreproduced)")
     run.assumptions = ["'at most quadratic' is checked as a budget (5 s + 2 ms per (n/1000)^2; a call over 1 s is measured three times and the minimum counts), not proved: it detects hangs and cubic or worse blow-ups",
                        "memory-level faults other than Go panics are not observable; a NUL byte cannot be passed in a CLI argument vector (OS limit)",
-                       "beyond length %d the inputs are seeded structured garbage and long runs, not exhaustive; the coverage-guided fuzz corpus of the design is not used" % L]
+                       "beyond length %d the inputs are seeded structured garbage, long runs and (thorough tier) the corpus of Go's coverage-guided fuzzer run for 150 s from valid texts; none of these is exhaustive" % L]
     return vlib.finish(run, rule="all byte strings of length <= %d over a 20-byte syntax alphabet x (20 NewVersion + 20 NewVersionRange + vers.Contains as range/probe/mixed for 11 schemes + whole string) + seeded garbage + long-run families x lengths up to 100k; CLI: every string of length <= 2 in every argument position" % L,
                        exhaustive=True, judged=judged, min_judged=1000)
 
